@@ -14,7 +14,7 @@ def run(tier, seed, only=None):
     C = config
     lists = [pl for pl in (C.QUICK_LISTS if tier == "quick" else C.thorough_lists(seed, limit=300)) if not pl.trivial] + \
             [pl for pl in C.QUICK_LISTS if pl.name in ("Plain", "OneFixed", "OneVarying", "TwoVarying")]
-    cfgs = [(pl, C.A_NONE) for pl in lists] + [(pl, ak) for pl in C.QUICK_LISTS if pl.name in ("ObjFixed", "ObjVarying", "ObjTDVarying") for ak in (C.A_ALL, C.A_MA, C.A_AE, C.A_EMPTY)]
+    cfgs = [(pl, C.A_NONE) for pl in lists] + [(pl, C.A_NONE) for pl in C.OVERLAP_LISTS] + [(pl, ak) for pl in C.QUICK_LISTS if pl.name in ("ObjFixed", "ObjVarying", "ObjTDVarying") for ak in (C.A_ALL, C.A_MA, C.A_AE, C.A_EMPTY)]
     return run_vector(
         "C06", "cv.props.c06", tier, seed,
         "Value-type events (opaque constructor / destructor / assignment calls that survive optimisation) of every operation on "
@@ -24,6 +24,9 @@ def run(tier, seed, only=None):
         "block after its deallocation; L2 wherever elements with non-trivially constructible types are relocated by a bulk "
         "copy, a constructor of that type runs on the destination on the same path (never a bytewise relocation alone), and "
         "copying never moves from the source; L3 intra-block relocation constructs the target before destroying the source "
-        "only where the constant stride keeps the ranges apart.  Exactly-once counting per object over an arbitrary history "
+        "only where the constant stride keeps the ranges apart; L3m the element-wise relocation of erase on varying-size lists "
+        "never copies a trivially copyable span with MEMCPY inside one block (the moved element's old and new place overlap "
+        "whenever the erased extent is smaller than the span) - only MEMMOVE / element-wise copies may appear; L4 an operand "
+        "that keeps its block ends with fewer elements only where destructors ran on that block.  Exactly-once counting per object over an arbitrary history "
         "is by induction over these per-operation rules (DESIGN §4 C06); values are not tracked.",
         cfgs=cfgs, min_cfg=20, min_ob=600)
